@@ -5,5 +5,6 @@ DigTab == [D32a |-> [w |-> 32, rank |-> 1], D32b |-> [w |-> 32, rank |-> 2], D20
            D64 |-> [w |-> 64, rank |-> 1], D0 |-> [w |-> 0, rank |-> 1], D32z |-> [w |-> 32, rank |-> 0],
            D200 |-> [w |-> 200, rank |-> 1]]       \* a digest whose length needs a two-byte varint in the multihash
 RecSet == { R(18, "D32a", "o0"), R(18, "D32a", "o1"), R(18, "D32b", "o32"), R(45600, "D32a", "o63m"), R(0, "D32a", "o63"),
-            R(0, "D0", "o1"), R(18, "D20", "o0"), R(18, "D64", "o1"), R(45600, "D32b", "o0"), R(18, "D32z", "o1"), R(0, "D200", "o32") }
+            R(0, "D0", "o1"), R(18, "D20", "o0"), R(18, "D64", "o1"), R(45600, "D32b", "o0"), R(18, "D32z", "o1"), R(0, "D200", "o32"),
+            R(4179, "D20", "o1") }     \* 4179 = 0x1053 ripemd-160: a hash code the multihash library has no name for
 =============================================================================
